@@ -200,6 +200,16 @@ class Ctx:
                                     'decisions': list(self.eng.decisions)})
         return False
 
+    def on_timeout(self, seconds):
+        """the analysed code did not return: candidate for a CPU-limited concrete replay"""
+        if self.describe is None:
+            return False
+        pyfront.uninstall()
+        m = self.eng.get_model()
+        self.violation('path-timeout', 'no result within %s s wall on the symbolic path' % seconds,
+                       model=m, candidate=True)
+        return True
+
     def sample(self, obj):
         if len(self.res.samples) < 1:
             self.res.samples.append(obj)
@@ -209,6 +219,7 @@ class Ctx:
 # worker side
 # ---------------------------------------------------------------------------
 _STATE = {}
+_TIMEOUT_SERVER = []
 
 
 def _worker_init(modname, kf, seed):
@@ -244,7 +255,8 @@ def _worker_task(task):
         deadline = t0 + slice_s
         results, leftover = symcore.explore(h, W=W, prefixes=prefixes, deadline=deadline,
                                             seed=_STATE['seed'], ctx_factory=ctx_factory,
-                                            timeout_ms=job.get('timeout_ms', 30000))
+                                            timeout_ms=job.get('timeout_ms', 30000),
+                                            path_timeout_s=job.get('path_timeout_s', int(os.environ.get('VERIF_PATH_TIMEOUT', '300'))))
         for r in results:
             out['paths'] += 1
             out['checks'] += r.nchecks
@@ -367,6 +379,25 @@ def run_check(prop, modname, jobs, tier, seed, level='model_checking', functions
             if key in seen:
                 continue
             seen.add(key)
+            if v['label'] == 'path-timeout':
+                # did the REAL code fail to terminate?  the check's own replay, CPU-limited, in a
+                # forked child of a pristine interpreter
+                from lib.common import PristineServer
+                if not _TIMEOUT_SERVER:
+                    _TIMEOUT_SERVER.append(PristineServer())
+                r = _TIMEOUT_SERVER[0].call(modname, 'replay', json.loads(json.dumps(v, default=str)),
+                                            cpu_s=60, mem_mb=4096, wall_s=1800)
+                if r['status'] == 'cpu':
+                    v['replay_detail'] = 'the public API call on %s did not finish within 60 s CPU' % (
+                        json.dumps(v['witness'].get('inputs'), default=str)[:300],)
+                    confirmed.append(v)
+                elif r['status'] == 'ok' and r['result'] and r['result'][0]:
+                    v['replay_detail'] = r['result'][1]
+                    confirmed.append(v)
+                else:
+                    agg['inconclusive'].append('%s: symbolic path exceeded its wall budget, concrete replay: %s'
+                                               % (v['job']['id'], str(r)[:200]))
+                continue
             try:
                 ok, detail = replay(v)
             except HarnessError as e:
